@@ -148,7 +148,8 @@ def _build_case(draw):
             max_size=3,
         )
     )
-    return {'spec': spec, 'marks': marks, 'targets': targets}
+    return {'spec': spec, 'marks': marks, 'targets': targets,
+            'future': draw(st.booleans())}
 
 
 def _expected(case, ref):
@@ -324,6 +325,30 @@ def exec_build_store(case):
                         dawgie.pl.version.record(
                             fac(dawgie.util.task_name(fac))
                         )
+            if case.get('future') and old['algs']:
+                # a later generation was recorded as well (the software was
+                # rolled forward and is now back): every element has one more
+                # persisted version, recorded after the one in use now
+                import copy
+
+                fut = copy.deepcopy(old)
+                for a in fut['algs']:
+                    a['ver'] = [a['ver'][0] + 10, 1, 1]
+                    for sv in a['svs']:
+                        sv['ver'] = [sv['ver'][0] + 10, 1, 1]
+                        for v in sv['vals']:
+                            v['ver'] = [v['ver'][0] + 10, 1, 1]
+                with engines.loaded(fut) as eng:
+                    f = eng.factories
+                    for fac in (
+                        f[dawgie.Factories.analysis]
+                        + f[dawgie.Factories.regress]
+                        + f[dawgie.Factories.task]
+                    ):
+                        dawgie.pl.version.record(
+                            fac(dawgie.util.task_name(fac))
+                        )
+                out.label('later-generation-recorded')
             store.reopen_cycle()
             with engines.loaded(case['spec']) as eng:
                 f = eng.factories
